@@ -200,6 +200,8 @@ pub enum WaitKind {
     Req,
     Stream,
     Join,
+    /// woke itself: will be polled again without outside help
+    SelfWake,
 }
 
 #[derive(Clone, Copy, Debug)]
@@ -217,6 +219,7 @@ fn wait_live(g: &Globals, w: &Wait) -> bool {
     match w.kind {
         WaitKind::Req | WaitKind::Stream => !g.is_dropped(w.key) && !g.has_value(w.key),
         WaitKind::Join => g.live_tasks.contains(&w.uid),
+        WaitKind::SelfWake => true,
     }
 }
 
@@ -224,6 +227,7 @@ fn wait_fired(g: &Globals, w: &Wait) -> bool {
     match w.kind {
         WaitKind::Req | WaitKind::Stream => g.woke(w.key),
         WaitKind::Join => !g.live_tasks.contains(&w.uid),
+        WaitKind::SelfWake => true,
     }
 }
 
@@ -500,6 +504,8 @@ enum Blk {
     Req(ReqKey),
     Loop { key: ReqKey, n: u32, in_body: bool },
     Join(u64),
+    /// self-waking yields still to go: each one ends the current poll and asks for another
+    Yield(u8),
     JoinAll(Vec<Branch>),
     Select(Vec<Branch>),
     Chain(Up),
@@ -737,8 +743,21 @@ impl Seq {
                         None => return false,
                     }
                 }
-                Stmt::Yield(_) => {
-                    frame.pc += 1;
+                Stmt::Yield(n) => {
+                    let left = match &frame.blk {
+                        Some(Blk::Yield(k)) => *k,
+                        _ => n,
+                    };
+                    if left == 0 {
+                        frame.blk = None;
+                        frame.pc += 1;
+                    } else {
+                        // returns Pending after waking itself: other branches of an enclosing
+                        // join/select are polled in this round, the task runs again in this settle
+                        frame.blk = Some(Blk::Yield(left - 1));
+                        g.progress = true;
+                        return false;
+                    }
                 }
                 Stmt::AwaitChain { first, stages } => {
                     if frame.blk.is_none() {
@@ -790,6 +809,7 @@ impl Seq {
                     }
                 }
                 Some(Blk::Join(uid)) => f(Wait { kind: WaitKind::Join, key: (0, 0), uid: *uid, under_stream: under, polled: is_top }),
+                Some(Blk::Yield(_)) => f(Wait { kind: WaitKind::SelfWake, key: (0, 0), uid: 0, under_stream: under, polled: true }),
                 Some(Blk::JoinAll(bs) | Blk::Select(bs)) => {
                     for b in bs {
                         if !b.finished {
@@ -828,7 +848,7 @@ impl Seq {
         // conservative: uses a dummy globals-free walk
         for fr in &self.frames {
             match &fr.blk {
-                None | Some(Blk::Join(_)) => {}
+                None | Some(Blk::Join(_) | Blk::Yield(_)) => {}
                 Some(Blk::Req(k)) => out.push(*k),
                 Some(Blk::Loop { key, .. }) => out.push(*key),
                 Some(Blk::JoinAll(bs) | Blk::Select(bs)) => {
@@ -925,6 +945,7 @@ impl TaskSt {
                     && match w.kind {
                         WaitKind::Req | WaitKind::Stream => !g.is_dropped(w.key),
                         WaitKind::Join => g.live_tasks.contains(&w.uid),
+                        WaitKind::SelfWake => true,
                     }
             });
             if !can_wake {
@@ -1473,7 +1494,9 @@ impl Model {
                 arity: r.arity,
                 op: r.op,
                 resolved: r.resolved,
-                droppable: !undroppable.contains(k),
+                // a dropped request of the old capability API is not noticed by its task (no wake):
+                // the shell of these runs never drops them (S10 is judged by C13 only)
+                droppable: !undroppable.contains(k) && !r.legacy,
                 rx_alive: r.rx_alive,
             })
             .collect()
